@@ -10,7 +10,9 @@ export VERIF_REPO="$T/repo" VERIF_WORK="$T/work" VERIF_OUT="$T/out"
 # run from a private copy of the framework (so that edits to /verif while the trial runs do not disturb it)
 if [ -z "$VERIF_SNAP" ]; then
   VERIF_SNAP="$T/snap"; mkdir -p "$VERIF_SNAP"
-  rsync -a --exclude work --exclude .git --exclude seeded --exclude evidence --exclude replays /verif/ "$VERIF_SNAP/"
+  # the committed state (never a half-edited working tree), plus the Lean build products so that little has to be rebuilt
+  git -C /verif archive HEAD -- . ':!seeded' ':!evidence' | tar -x -C "$VERIF_SNAP"
+  mkdir -p "$VERIF_SNAP/lean/.lake"; rsync -a /verif/lean/.lake/ "$VERIF_SNAP/lean/.lake/"
 fi
 ROOT=$VERIF_SNAP
 cd $ROOT
